@@ -2807,3 +2807,18 @@ QUERIES["C15"] = QUERIES.get("C15", []) + QUERIES_C15
 # ------------------------------------------------------------------------------------------------
 from queries_c11 import QUERIES_C11  # noqa: E402
 QUERIES["C11"] = QUERIES.get("C11", []) + QUERIES_C11
+
+
+# ------------------------------------------------------------------------------------------------
+# C09: length-prefixed framing (decode / encode) over integer buffer lengths
+# ------------------------------------------------------------------------------------------------
+from queries_c09 import QUERIES_C09  # noqa: E402
+QUERIES["C09"] = QUERIES.get("C09", []) + QUERIES_C09
+
+
+# ------------------------------------------------------------------------------------------------
+# C09 / C10: decoded record identifiers are long enough for their accessors (no panic on hostile ids)
+# ------------------------------------------------------------------------------------------------
+from queries_recid import QUERIES_RECID  # noqa: E402
+for _p in ("C09", "C10"):
+    QUERIES[_p] = QUERIES.get(_p, []) + QUERIES_RECID
